@@ -71,3 +71,8 @@ def arg_of(ctx, call: ast.Call, name: str, module, cls=None):
         if i < len(call.args) and not any(isinstance(a, ast.Starred) for a in call.args[: i + 1]):
             return call.args[i]
     return None
+
+
+def unold_ast(node):
+    """like unold, returning the expression"""
+    return ast.parse(unold(node), mode="eval").body
